@@ -1545,8 +1545,11 @@ _add("C12", "partial", [
     "of the input (c12_typed_eof_at_end), no 'proper prefix of a typed text' theorem in the converse direction",
     "'an undelimited bare scalar yields an error' and 'byte_offset() of an error item is the first byte of that value' hold by the model's "
     "definition of next(); they are tied to the crate by correspondence only",
-    "typed streams: every item is read at depth 0 by construction of Model.StreamTyped (budget restoration for typed items is assumed "
-    "there; proved for Value / IgnoredAny items: c14_stream_depth_restored)",
+    "typed streams: Model.StreamTyped reads every item at depth 0 by construction; that this is what a stream with ONE deserializer "
+    "(one remaining_depth counter living across the items) does is now a theorem - c12_typed_items_full_budget / "
+    "c14_typed_stream_depth_restored over Model.StreamTypedDepth (Props/StreamTypedDepth.lean), as c14_stream_depth_restored is for "
+    "Value / IgnoredAny items. What remains by construction: in Model.StreamTypedDepth the padding height `t` of a nested Value "
+    "(how the model finds the end of the nested value) is still passed downward; every limit test reads the counter",
 ])
 _add("C13", "partial", [
     "writer clause: 'the serializer performs the write_all calls of Model.Ser's buffer list in order and stops at the first failing one' "
@@ -1972,3 +1975,34 @@ PROPS["C05"]["level_text"] += (
 PROPS["C04"]["partial"] = [x.replace("for the default build it remains a hypothesis (C08 covers short literals)",
     "for the default build it is discharged for floats that print as short literals (c04_default_short_floats, from RyuShortest and "
     "c08_exact_short) and remains a hypothesis for the others") for x in PROPS["C04"]["partial"]]
+
+# ---- typed targets: the remaining_depth counter threaded as state (branch wip-ptdepth)
+PROPS["C14"]["lean_targets"] = PROPS["C14"]["lean_targets"][:-1] + ["SJ.Props.StreamTypedDepth"] + PROPS["C14"]["lean_targets"][-1:]
+PROPS["C12"]["lean_targets"] = PROPS["C12"]["lean_targets"][:-1] + ["SJ.Props.StreamTypedDepth"] + PROPS["C12"]["lean_targets"][-1:]
+PROPS["C14"]["level_text"] += (" Typed targets, the counter itself (Props/StreamTypedDepth.lean over Model/StreamTypedDepth.lean, the typed model with "
+    "Deserializer::remaining_depth threaded as STATE - decremented / tested / incremented where the seven check_recursion! sites do it (the body stores "
+    "`ret`, no `?`: the increment runs on Ok and on Err; deserialize_enum restores before `tri!(ret)`; only the macro's own early return skips it), a nested "
+    "Value on the machine with StreamDepth.step1D, the stream keeping the counter between next() calls): c14_typed_depth_restored - entered with "
+    "remaining_depth = d (d + open typed containers = 128, or any d with the limit disabled) the instrumented deserializer returns exactly what "
+    "Model.Typed.deTyped returns and leaves the counter at d on every exit path, Ok or Err, except that the RecursionLimitExceeded error leaves d - 1; "
+    "c14_typed_depth_restored_ok (a value read successfully always leaves d); c14_typed_stream_depth_restored - the typed stream with the counter yields "
+    "the items and offsets of Model.StreamTyped.historyT and the counter is 128 after every call that yields something (127 after the item that failed with "
+    "RecursionLimitExceeded, when the stream is fused); c12_typed_items_full_budget - after any number of calls the stream has failed or the counter is 128. "
+    "NOT claimed (and not claimed by the statement: 'after each successfully read value'): anything about a Deserializer that is used again after an error "
+    "outside a stream - there the unit lost by RecursionLimitExceeded stays lost (127), and a crate change that skipped the increment on Err paths only would "
+    "be unobservable through StreamDeserializer (fused) and through single documents.")
+PROPS["C12"]["level_text"] += (" Typed items are read with the full depth budget BY THEOREM (Props/StreamTypedDepth.lean over Model/StreamTypedDepth.lean, "
+    "the typed stream with the deserializer's remaining_depth counter kept from one next() to the next): c14_typed_stream_depth_restored (same items and "
+    "offsets as Model.StreamTyped.historyT; counter 128 after every yielding call, 127 after a RecursionLimitExceeded item) and c12_typed_items_full_budget "
+    "(before every call the stream has failed or the counter stands at 128).")
+DEPTH_STREAM_RULE = (" Tags depth:<family>:<layer kind>:<shape> (stypes::run_depth, op tstream; C12 in d / fr, C14 in d / ud): streams of 2-42 items of ONE schema "
+                     "nesting to different depths around the recursion limit - Option-interleaved / bare / Value-leaf / exact-height / wide towers of the ten layer "
+                     "kinds of typed::layer and their rotation, shapes [127,127,127], [126,127,128,127], [1,127,2,127], [128,127], [129,127,127], 40 shallow items then "
+                     "127,128, an item failing at depth ~120 for another reason (tx, -x, trailing comma, mistyped leaf) between two 127-deep ones, 130 siblings then the "
+                     "deepest; 678 cases per configuration (thorough 1455). The model reads every item with the whole budget (c12_typed_items_full_budget), so a "
+                     "check_recursion! exit skipped on an Ok path shows as a later item failing with RecursionLimitExceeded (mutation: deserialize_enum's `{` arm without its "
+                     "`+= 1` - 138 disagreements per configuration, the only C12 cases that see it). Under C14 op tstream reports model disagreements only (its "
+                     "specification messages are C12's). A skipped increment on Err paths only is unobservable here: the stream is fused after any error, and the "
+                     "universal seed has no error-swallowing visitor (the model-level statement is c14_typed_depth_restored).")
+PROPS["C12"]["rule"] += DEPTH_STREAM_RULE
+PROPS["C14"]["rule"] += DEPTH_STREAM_RULE
